@@ -60,7 +60,8 @@ func (p *ConfigProp[T]) Stage(newValue T) {
 		setRestartNeeded()
 	}
 
-	p.onChange.Fire(newValue)
+	// Subscribers follow the effective setting: a command-line overwrite still wins over the new value.
+	p.onChange.Fire(overwritable.Get())
 }
 
 func (p *ConfigProp[T]) CommitStaged() {
